@@ -113,7 +113,7 @@ def selftest(ctx):
     a["json"]["check"]["offending"] = a["json"]["check"]["offending"][1:]
     a["id"] = "mut-verdict"
     b = copy.deepcopy(e)
-    al = next(x for f in b["json"]["gen"]["files"] for x in f["aliases"] if x["t"]["k"] == "obj")
+    al = next(x for f in b["json"]["gen"]["files"] for x in f["aliases"] if x["t"]["k"] == "obj" and not x["name"].startswith("__") and not x.get("base", "").startswith("__"))
     al["t"]["fs"] = al["t"]["fs"][1:]
     b["id"] = "mut-alias"
     o = vlib.validate_trace("Trace_C15", "Trace_C15.cfg", [a, b], workdir=ctx.work, nshards=1)
